@@ -24,7 +24,8 @@ CONSTANTS
   Sig <- MCSig
   MoreObs <- MCMoreObs
   BinnerRule = "at_set"
-  ChemSet <- MCChem
+  ChemLayers <- MCChemLayers
+  ChemRule = "any"
   ChemLimit = 50
   TLow = 1
   THigh = 3
